@@ -184,7 +184,37 @@ func degenerateModel(rng *rand.Rand) *openfgav1.AuthorizationModel {
 		if td == nil {
 			continue
 		}
-		switch rng.Intn(14) {
+		switch rng.Intn(16) {
+		case 14, 15:
+			// operators all of whose operands are direct assignments of a relation without directly related user
+			// types (no metadata at all, or an empty list): the operator node has no outgoing edge whatsoever
+			this := func() *openfgav1.Userset { return &openfgav1.Userset{Userset: &openfgav1.Userset_This{}} }
+			var u *openfgav1.Userset
+			switch rng.Intn(4) {
+			case 0:
+				u = &openfgav1.Userset{Userset: &openfgav1.Userset_Difference{Difference: &openfgav1.Difference{Base: this(), Subtract: this()}}}
+			case 1:
+				u = &openfgav1.Userset{Userset: &openfgav1.Userset_Intersection{Intersection: &openfgav1.Usersets{Child: []*openfgav1.Userset{this(), this()}}}}
+			case 2:
+				u = &openfgav1.Userset{Userset: &openfgav1.Userset_Union{Union: &openfgav1.Usersets{Child: []*openfgav1.Userset{this(), this()}}}}
+			default:
+				inner := &openfgav1.Userset{Userset: &openfgav1.Userset_Difference{Difference: &openfgav1.Difference{Base: this(), Subtract: this()}}}
+				u = &openfgav1.Userset{Userset: &openfgav1.Userset_Union{Union: &openfgav1.Usersets{Child: []*openfgav1.Userset{inner, this()}}}}
+			}
+			if td.Relations == nil {
+				td.Relations = map[string]*openfgav1.Userset{}
+			}
+			name := "bare"
+			for r := range td.Relations {
+				name = r
+				break
+			}
+			td.Relations[name] = u
+			if rng.Intn(2) == 0 {
+				td.Metadata = nil
+			} else if td.Metadata != nil && td.Metadata.Relations != nil {
+				td.Metadata.Relations[name] = &openfgav1.RelationMetadata{DirectlyRelatedUserTypes: []*openfgav1.RelationReference{}}
+			}
 		case 0:
 			td.Metadata = nil
 		case 1:
@@ -460,16 +490,18 @@ func c08ExerciseDSL(c *Ctx, in, other, stream string) {
 // c08DeepNesting: rewrites nested to depths no fixture and no random generator reaches (limits, counters and
 // stacks in the listener, the printer and the graph builders only show beyond them), as DSL in several
 // nesting shapes and as protobuf values.
-func c08DeepNesting(c *Ctx, rng *rand.Rand) {
-	ops := []string{"or", "and", "but not"}
-	head := func(modular bool) string {
+// deepKit: the operators, the document head and the six families of deeply nested relation definitions (shared by
+// C08, which pushes them through every entry point, and C01, which round-trips them)
+func deepKit() (ops []string, head func(modular bool) string, shapes map[string]func(d int, op string) string) {
+	ops = []string{"or", "and", "but not"}
+	head = func(modular bool) string {
 		if modular {
 			return "module deep\n\ntype user\n\ntype doc\n  relations\n    define a: [user]\n    define b: [user]\n    define p: [doc]\n"
 		}
 		return "model\n  schema 1.1\n\ntype user\n\ntype doc\n  relations\n    define a: [user]\n    define b: [user]\n    define p: [doc]\n"
 	}
 	leaf := []string{"a", "b", "a from p"}
-	shapes := map[string]func(d int, op string) string{
+	shapes = map[string]func(d int, op string) string{
 		// x op (x op (x op ( ... )))
 		"right": func(d int, op string) string {
 			s := leaf[d%3]
@@ -514,6 +546,29 @@ func c08DeepNesting(c *Ctx, rng *rand.Rand) {
 			return s
 		},
 	}
+	return
+}
+
+// deepDocs: one document per depth, family and operator (one operator per family beyond depth 40)
+func deepDocs(depths []int) []string {
+	ops, head, shapes := deepKit()
+	names := sortedKeys(shapes)
+	out := []string{}
+	for _, d := range depths {
+		for _, sh := range names {
+			for oi, op := range ops {
+				if d > 40 && (oi+d)%3 != 0 {
+					continue
+				}
+				out = append(out, head((d+oi)%4 == 0)+"    define deep: "+shapes[sh](d, op)+"\n")
+			}
+		}
+	}
+	return out
+}
+
+func c08DeepNesting(c *Ctx, rng *rand.Rand) {
+	ops, head, shapes := deepKit()
 	depths := []int{1, 2, 3, 5, 8, 12, 16, 20, 24, 25, 26, 27, 31, 32, 33, 40, 48, 63, 64, 65}
 	if c.Thorough() {
 		depths = append(depths, 80, 100, 127, 128, 129, 160, 200)
